@@ -265,7 +265,7 @@ theorem lexLineComment_append (a : Bool) (cs r : List Char)
               have : ¬ (c2 = '/') := hc2
               simpa [lexLineComment, this, stepCompat, StepRes.endClass, compat] using h)
             have e1 : ∀ l : List Char, lexLineComment a ('/' :: c2 :: l) =
-                ⟨.tok (.doc ((c2 :: l).takeWhile (· != '\n'))), (c2 :: l).dropWhile (· != '\n'), a⟩ := by
+                ⟨.tok (.doc (stripCr ((c2 :: l).takeWhile (· != '\n')))), (c2 :: l).dropWhile (· != '\n'), a⟩ := by
               intro l; simp only [lexLineComment]; split
               · rename_i heq; cases heq; exact absurd rfl hc2
               · rfl
